@@ -39,7 +39,7 @@ Lemma perm_eqb_refl a : perm_eqb a a = true.
 Proof. apply perm_eqb_of_perm. apply Permutation_refl. Qed.
 Lemma cres_eqb_refl x : cres_eqb x x = true.
 Proof.
-  destruct x as [s|[s|]|[]| |l]; cbn; try reflexivity; try apply N.eqb_refl. apply perm_eqb_refl.
+  destruct x as [s|[s|]|[]| |l|s]; cbn; try reflexivity; try apply N.eqb_refl. apply perm_eqb_refl.
 Qed.
 
 Lemma cons_of_creates (lg : list (@event ckey)) :
@@ -132,11 +132,12 @@ Definition cres_equiv (a b : cres) : Prop :=
 
 Lemma cres_eqb_equiv a b : cres_eqb a b = true -> cres_equiv a b.
 Proof.
-  destruct a as [s|[s|]|x| |l], b as [s'|[s'|]|y| |l']; cbn; intros H; try discriminate; try reflexivity.
+  destruct a as [s|[s|]|x| |l|s], b as [s'|[s'|]|y| |l'|s']; cbn; intros H; try discriminate; try reflexivity.
   - apply N.eqb_eq in H. congruence.
   - apply N.eqb_eq in H. congruence.
   - apply eqb_prop in H. congruence.
   - apply perm_eqb_perm. exact H.
+  - apply N.eqb_eq in H. congruence.
 Qed.
 
 Theorem spec_ok_sound : forall c o, spec_ok c o = true ->
